@@ -76,7 +76,11 @@ fn stores() -> Vec<VarStore> {
     let d1: Vec<Vec<u16>> = vec![vec![0], vec![1, 0], vec![2, 3], vec![0, 1]];
     let r2: Vec<Region> = vec![vec![(0, ONE, ONE), (0, 0, 0)], vec![(0, 0, 0), (0, ONE, ONE)], vec![(0, ONE, ONE), (0, ONE, ONE)], vec![(-ONE, -ONE, 0), (0, ONE / 2, ONE)]];
     let d2: Vec<Vec<u16>> = vec![vec![0], vec![0, 1], vec![2, 3], vec![1, 2]];
-    vec![VarStore { axis_count: 1, regions: r1, datas: d1 }, VarStore { axis_count: 2, regions: r2, datas: d2 }]
+    // third store: ItemVariationData 0 and 2 have regionIndexCount = 0 (k = 0: `n blend` leaves the n defaults), 1 has two
+    // regions and 3 one, so the default subtable, a Private DICT vsindex and a charstring vsindex each reach a subtable
+    // without regions in some vsindex configuration, and the glyphs / font DICTs of one font mix k = 0 with k > 0
+    let d0: Vec<Vec<u16>> = vec![vec![], vec![1, 0], vec![], vec![2]];
+    vec![VarStore { axis_count: 1, regions: r1.clone(), datas: d1 }, VarStore { axis_count: 2, regions: r2, datas: d2 }, VarStore { axis_count: 1, regions: r1, datas: d0 }]
 }
 
 /// segment shapes (a subset of the C18 alphabet)
@@ -179,7 +183,7 @@ fn build_path(spec: &[(u8, Vec<SK>)], k: usize, salt: usize) -> PathModel {
 const NDIM: usize = 8;
 
 pub fn dims(thorough: bool) -> [usize; NDIM] {
-    [2, 6, path_specs(thorough).len(), if thorough { 4 } else { 3 }, 3, 5, 2, 2]
+    [3, 6, path_specs(thorough).len(), if thorough { 4 } else { 3 }, 3, 5, 2, 2]
 }
 
 fn in_tier(idx: &[usize], thorough: bool) -> bool {
@@ -313,7 +317,20 @@ fn gen(idx: &[usize], thorough: bool) -> Option<Case> {
         let op_ends: Vec<usize> = flat.iter().enumerate().filter(|(i, t)| matches!(t, VTok::Op(_) | VTok::Esc(_)) && !matches!(flat.get(i + 1), Some(VTok::Mask(..)))).map(|(i, _)| i + 1).chain(flat.iter().enumerate().filter(|(_, t)| matches!(t, VTok::Mask(..))).map(|(i, _)| i + 1)).collect();
         let mut ends = op_ends.clone();
         ends.sort();
-        let ser = |t: &[VTok]| serialize(&expand_blend(t, k, policy), &NumPolicy::SHORTEST).bytes;
+        // k = 0 (ItemVariationData without regions): the operands still go through blend, `d1..dn n blend` with n = all
+        // operands of the operator / 1 / 2 according to the policy
+        let ser = |t: &[VTok]| {
+            let toks = if k == 0 {
+                match policy {
+                    BlendPolicy::AllAtOnce => expand_blend_forced(t, 0, 513, false),
+                    BlendPolicy::PerOperand => expand_blend_forced(t, 0, 1, false),
+                    BlendPolicy::VaryingRuns => expand_blend_forced(t, 0, 2, true),
+                }
+            } else {
+                expand_blend(t, k, policy)
+            };
+            serialize(&toks, &NumPolicy::SHORTEST).bytes
+        };
         let mut prog: Vec<u8> = Vec::new();
         if let Some(j) = cs_vs(g) {
             prog.extend(serialize(&[Tok::Num(int(j as i32)), Tok::Op(op::VSINDEX)], &NumPolicy::SHORTEST).bytes);
@@ -1184,7 +1201,7 @@ pub fn run_phase(ctx: &Ctx) {
         "cff2_bounds",
         json!({
             "fonts": fonts.load(std::sync::atomic::Ordering::Relaxed),
-            "index_space": {"variation_store": "1 axis / 2 axes, 4 regions, 4 ItemVariationData (1..2 regions)", "vsindex": "absent, Private DICT 1/2/3, charstring operator overriding the Private DICT (all glyphs / one glyph)", "path_specs": d[2], "form_groups_of_3": d[3], "font_dicts": "1, 2 with FDSelect format 0, 2 with format 3 (different vsindex and local subrs per FD)", "metrics": "no HVAR; no HVAR with numberOfHMetrics 2; HVAR direct; HVAR advance index map over 2 subtables with numberOfHMetrics 2; HVAR advance + lsb maps", "avar": [false, true], "blended_StdHW_in_private_dict": [false, true]},
+            "index_space": {"variation_store": "1 axis / 2 axes, 4 regions, 4 ItemVariationData (1..2 regions); 1 axis, 4 regions, 4 ItemVariationData with 0 2 0 1 regions (regionIndexCount = 0: operands written `d1..dn n blend` with n = operator operand count / 1 / 2 alternating with plain operands, blended StdHW `d 1 blend`)", "vsindex": "absent, Private DICT 1/2/3, charstring operator overriding the Private DICT (all glyphs / one glyph)", "path_specs": d[2], "form_groups_of_3": d[3], "font_dicts": "1, 2 with FDSelect format 0, 2 with format 3 (different vsindex and local subrs per FD)", "metrics": "no HVAR; no HVAR with numberOfHMetrics 2; HVAR direct; HVAR advance index map over 2 subtables with numberOfHMetrics 2; HVAR advance + lsb maps", "avar": [false, true], "blended_StdHW_in_private_dict": [false, true]},
             "per_font": "3 drawn glyphs: blend all-at-once / per-operand / runs of varying operands, rotating with: stems + hintmask (blended stem operands, implicit vstem, mid-path hintmask), middle third in a local and last third in a global subroutine containing blend",
             "quick_restriction": "at most one of (font dicts, metrics, avar, private blend) departs from its default",
             "user_tuples": "1 axis: every region start/peak/end +-1 unit, midpoints, 0, +-1 unit, +-1, beyond both ends; 2 axes: product of per-axis menus (second axis and, in quick, the first: -1 -0.5 -1unit 0 0.25 0.5-1unit 0.5 1; thorough first axis: the full landmark list; plus beyond one end each)",
